@@ -69,12 +69,25 @@ Check(r, idx) ==
                                                                              /\ \/ w.op \in {"set", "compute", "invalidate", "computeinv"}
                                                                                 \/ /\ w.op = "invalidateAll"
                                                                                    /\ \E a \in aevs : a.k = 1 /\ a.err = "Invalidation" /\ a.seq > w.seq /\ a.seq < y.seq}
+        wretSeq(w) == LET c == {y \in wrets : y.g = w.g /\ y.seq > w.seq} IN IF c = {} THEN 1000000 ELSE (CHOOSE y \in c : \A z \in c : y.seq <= z.seq).seq
+        \* a write made while a load was in flight must survive that load's NOT-FOUND answer as well
+        nfRuns == {x \in exits : x.k = 1 /\ x.err = "nf"}
+        lostToNf == {w \in wcalls :
+                        /\ w.k = 1
+                        /\ w.op \in {"set", "compute"}
+                        /\ (\E x \in nfRuns : enterSeq(x) < w.seq /\ wretSeq(w) < installSeq(x))
+                        /\ (~\E w2 \in wcalls : w2.seq > w.seq)
+                        /\ (~\E a \in aevs : a.k = 1 /\ a.seq > w.seq /\ a.err \in {"Overflow", "Expiration"})
+                        /\ fin(1) # {w.v}}
         \* F17: an explicit invalidation whose removal was published (its atomic handler returned, record "hret") after the
         \* load had started, and the loaded value is in the cache nevertheless
         hrets == {e \in ev : e.t = "hret" /\ e.k = 1 /\ e.err = "Invalidation"}
         across == {x \in finRuns(1) : \E h \in hrets : enterSeq(x) < h.seq /\ h.seq < installSeq(x)}
         \* the last explicit set/compute that returned after every load was installed must be what the cache holds
-        lastW == {w \in wcalls : w.op \in {"set", "compute"} /\ \A o \in ev : o.seq <= w.seq \/ o.g = w.g \/ o.t = "ret"}
+        lastW == {w \in wcalls : /\ w.op \in {"set", "compute"}
+                                  /\ \A o \in ev : \/ o.seq <= w.seq
+                                                    \/ (o.seq <= wretSeq(w) /\ o.g = w.g)     \* its own events during the call
+                                                    \/ (o.seq > wretSeq(w) /\ o.t = "ret")}   \* afterwards only returns
         \* C11: scenarios without writers and without automatic removals, entry preloaded with 50
         runs1 == {x \in exits : x.k = 1}
         quiet == wcalls = {} /\ r.sc.preload = 1 /\ r.sc.refresh = 1 /\ runs1 # {} /\ r.diag = "" /\ pendingCalls = {}
@@ -98,6 +111,7 @@ Check(r, idx) ==
     \o (IF bulkMissing # {} THEN <<F(idx, "C08.bulk_result_missing", bulkMissing)>> ELSE <<>>)
     \o (IF joinBad # {} THEN <<F(idx, "C08.notfound_without_loader", joinBad)>> ELSE <<>>)
     \o (IF across # {} THEN <<F(idx, "C09.install_across_invalidation", <<across, r.final>>)>> ELSE <<>>)
+    \o (IF lostToNf # {} THEN <<F(idx, "C09.write_removed_by_notfound_load", <<lostToNf, r.final>>)>> ELSE <<>>)
     \o (IF stale # {} THEN <<F(idx, "C09.stale_install", <<stale, r.final>>)>> ELSE <<>>)
     \o (IF \E w \in lastW : w.k = 1 /\ fin(1) # {w.v} THEN <<F(idx, "C09.write_lost", <<lastW, r.final>>)>> ELSE <<>>)
     \o (IF fin(1) \ (loadedVals(1) \cup writtenVals(1)) # {} THEN <<F(idx, "C09.invented_final", r.final)>> ELSE <<>>)
